@@ -412,6 +412,17 @@ class Reconfigure:
             return self.referenced_branch.base
         raise NoBindLocation(self.controldir)
 
+    def _fetch_pending_merges(self, to_repo, from_repo):
+        """Copy the revisions merged into a tree that is kept, but not committed.
+
+        Fetching the branch tip does not bring them along.
+        """
+        if self.tree is None or self._destroy_tree:
+            return
+        for revision_id in self.tree.get_parent_ids()[1:]:
+            if from_repo.has_revision(revision_id):
+                to_repo.fetch(from_repo, revision_id)
+
     def apply(self, force=False):
         """Apply the reconfiguration.
 
@@ -440,6 +451,7 @@ class Reconfigure:
                 repo.fetch(
                     self.local_branch.repository, self.local_branch.last_revision()
                 )
+                self._fetch_pending_merges(repo, self.local_branch.repository)
         else:
             repo = self.repository
         if self._create_branch and self.referenced_branch is not None:
@@ -447,8 +459,13 @@ class Reconfigure:
                 self.referenced_branch.repository,
                 self.referenced_branch.last_revision(),
             )
+            self._fetch_pending_merges(repo, self.referenced_branch.repository)
         if self._create_reference:
             reference_branch = branch.Branch.open(self._select_bind_location())
+            if self.local_branch is not None:
+                self._fetch_pending_merges(
+                    reference_branch.repository, self.local_branch.repository
+                )
         if self._destroy_repository:
             if self._create_reference:
                 reference_branch.repository.fetch(self.repository)
